@@ -96,6 +96,29 @@ func (n *numCase) floatTolerance() bool {
 	return mc.Fired["multipleof-float-tolerance"] && got != n.expected() || floatQuotientDiffers(fv, n.c, n.expected())
 }
 
+// implUsesFloat tells whether the library, by its own documented dispatch, evaluates this multipleOf by float64
+// division (where the recorded tolerance finding lives): float carriers always; integer carriers only when the
+// factor is not an integer fitting the carrier's 64-bit flavour (values.go MultipleOfNativeType); a json.Number
+// travels as int64 when the schema names integer and the literal is integral, as float64 otherwise.
+func (n *numCase) implUsesFloat(entry, render string) bool {
+	intFactor := n.cr.IsInt()
+	signedExact := intFactor && n.cr.Num().IsInt64()
+	unsignedExact := intFactor && n.cr.Num().IsUint64()
+	if entry == "schema-jsonnumber" {
+		if strings.Contains(render, `"integer"`) && n.v.IsInt() && n.v.Num().IsInt64() {
+			return !signedExact
+		}
+		return true
+	}
+	switch {
+	case n.kind >= reflect.Int && n.kind <= reflect.Int64:
+		return !signedExact
+	case n.kind >= reflect.Uint && n.kind <= reflect.Uint64:
+		return !unsignedExact
+	}
+	return true
+}
+
 func floatQuotientDiffers(fv, fm float64, want bool) bool {
 	mc := &model.Ctx{Emu: model.Emu{MultipleOfFloat: true}}
 	v := new(big.Rat).SetFloat64(fv)
@@ -362,7 +385,7 @@ func (p *c13) Run(w *lib.Worker, idx int, r *lib.Rand) lib.Case {
 		c.Sample = sample
 		return c
 	}
-	if n.op == "mult" && n.floatTolerance() {
+	if n.op == "mult" && n.implUsesFloat(entry, render) && n.floatTolerance() {
 		c.Known = []string{"multipleof-float-tolerance"}
 		c.KnownWhat = fmt.Sprintf("%s exact=%v impl=%v %s", render, want, got, msg)
 		c.Sample = sample
